@@ -268,3 +268,14 @@ Definition call1 (c : callee) (args : list Z) (σ : ist) (k : ist -> res) : res 
   | _, _ => RStuck
   end.
 Definition run1 := run call1.
+
+(* every translated body has the recorded shape *)
+Lemma all_skel_ok :
+  map shape C14gen.Load = expected_Load /\ map shape C14gen.CreateWriter = expected_CreateWriter /\
+  map shape C14gen.ReadSector = expected_ReadSector /\ map shape C14gen.WriteSector = expected_WriteSector /\
+  map shape C14gen.ExistSector = expected_ExistSector /\ map shape C14gen.PadToFullSector = expected_PadToFullSector /\
+  map shape C14gen.findSpace = expected_findSpace /\ map shape C14gen.setHead = expected_setHead /\
+  C14gen.Region_fields = expected_Region_fields /\ C14gen.writeAt_text = expected_writeAt_text.
+Proof.
+  repeat split.
+Qed.
